@@ -575,7 +575,7 @@ namespace xv
             for (int n = 0; n < xv_type_size[elem] * 8; ++n)
                 p.push_back(n);
         else if (kind == 3)
-            p = { 0, 1, 2, 3, 4, 5, 7, 8, 13, 31, 32, 64, 100, 1000, -1, -2, -3, -5, -8, -31, -1000 };
+            p = { 0, 1, 2, 3, 4, 5, 7, 8, 13, 31, 32, 64, 100, 1000, -1, -2, -3, -5, -8, -31, -1000, 65536, -65537, 2147483647L, -2147483647L, -2147483647L - 1 };
         else if (kind == 2)
             p = { 0, 1, -1, 2, 3, 7, 127, -128, 255, 1000, 65535, -32768, 2147483647L, -2147483648L, 4294967295L, 0x123456789ABCDEFL };
         return p;
